@@ -6,6 +6,7 @@ Two modes:
     fingerprint (bytes fed, reader buffer, parser frame chain, outputs) is equal.
 """
 import itertools
+import time
 from collections import deque
 
 
@@ -27,7 +28,7 @@ def cut_plans(n, max_cuts, window=None):
                 yield list(comb)
 
 
-def search(step, max_states=200000):
+def search(step, max_states=200000, max_seconds=None):
     """Explicit-state BFS.  step(history) -> (fp, terminal, pending, outcome)
     where pending = number of bytes that could be fed next (0 => nothing to feed).
     Returns dict(states, transitions, outcomes={outcome_key: example history},
@@ -42,7 +43,12 @@ def search(step, max_states=200000):
     if not term0:
         frontier.append(([], pend0))
     capped = False
+    t_end = time.time() + max_seconds if max_seconds else None
     while frontier:
+        if t_end is not None and time.time() > t_end:
+            # a capped search is reported as such (cap_hit), never as exhaustive
+            capped = True
+            break
         hist, pending = frontier.popleft()
         for k in range(1, pending + 1):
             h2 = hist + [k]
